@@ -17,17 +17,13 @@ Print Assumptions C01_reachable_is_reach.
 
 Theorem C01_census_exact : forall r enum roots names,
   wf_b r = true -> contract r (walked roots) enum -> small r ->
-  match scan r enum roots names with
-  | SOk evs =>
+  exists evs, scan r enum roots names = SOk evs /\
       let h := history_of evs in
       let c := spec_census r (walked roots) in
       h_ncommits h = sat32 (n_commits c) /\ h_scommits h = sat64 (s_commits c) /\
       h_ntrees h = sat32 (n_trees c) /\ h_strees h = sat64 (s_trees c) /\ h_nentries h = sat64 (n_entries c) /\
       h_nblobs h = sat32 (n_blobs c) /\ h_sblobs h = sat64 (s_blobs c) /\
-      h_ntags h = sat32 (n_tags c)
-  | SPanic m => m = P_FUEL
-  | SErr _ => False
-  end.
+      h_ntags h = sat32 (n_tags c).
 Proof. exact census_exact. Qed.
 Print Assumptions C01_census_exact.
 
